@@ -43,6 +43,104 @@ def repo_frames(log, limit=6):
     return frames
 
 
+_dynsyms = {}
+
+
+def dynsym_of(lib, off):
+    """Exported function of a shared library that contains the offset."""
+    import bisect
+    import subprocess
+    if lib not in _dynsyms:
+        tab = []
+        try:
+            out = subprocess.run(["nm", "-D", "--defined-only", lib], stdout=subprocess.PIPE,
+                                 stderr=subprocess.DEVNULL).stdout.decode()
+            for ln in out.splitlines():
+                f = ln.split()
+                if len(f) >= 3 and f[1] in "TtWw":
+                    tab.append((int(f[0], 16), f[2].split("@")[0]))
+        except OSError:
+            pass
+        tab.sort()
+        _dynsyms[lib] = tab
+    tab = _dynsyms[lib]
+    i = bisect.bisect_right(tab, (off, "\xff")) - 1
+    return tab[i][1] if i >= 0 else "?"
+
+
+# Allocations made inside these elfutils entry points on a path where the
+# call *fails* belong to elfutils; dwgrep has no handle through which it
+# could release them (DESIGN.md 4.2, "elfutils-internal leaks").
+ELFUTILS_OWNED = ("dwfl_report_offline",)
+
+
+def split_leak_records(log):
+    recs, cur = [], None
+    for line in log.splitlines():
+        if re.match(r"(Direct|Indirect) leak of", line):
+            cur = {"head": line, "frames": []}
+            recs.append(cur)
+        elif cur is not None:
+            m = re.match(r"\s*#(\d+) 0x[0-9a-f]+\s+(?:in (\S.*?) (\S+?):(\d+)(?::\d+)?$|\((\S+)\+0x([0-9a-f]+)\))", line)
+            if m:
+                if m.group(2):
+                    cur["frames"].append(("src", m.group(2), m.group(3), int(m.group(4))))
+                else:
+                    cur["frames"].append(("bin", m.group(5), int(m.group(6), 16)))
+            elif not line.strip():
+                cur = None
+    return recs
+
+
+def is_repo_frame(fr):
+    return fr[0] == "src" and ("/repo/" in fr[2] or "/build/gen/" in fr[2]
+                               or re.search(r"/(libzwerg|dwgrep)/", fr[2]) is not None)
+
+
+_srclines = {}
+
+
+def source_line(path, line):
+    if path not in _srclines:
+        try:
+            _srclines[path] = open(path, encoding="latin-1").read().splitlines()
+        except OSError:
+            _srclines[path] = []
+    ls = _srclines[path]
+    return ls[line - 1] if 0 < line <= len(ls) else ""
+
+
+def leak_is_elfutils_internal(rec):
+    """True if the allocation was made inside libdw/libelf, called directly
+    from a repo source line that calls one of ELFUTILS_OWNED."""
+    fr = rec["frames"]
+    for i, f in enumerate(fr):
+        if is_repo_frame(f):
+            if i == 0:
+                return False
+            for above in fr[:i]:
+                if above[0] == "bin":
+                    if not re.search(r"lib(dw|elf|z|lzma|bz2)[-.]", above[1]):
+                        return False
+                elif "libsanitizer" not in above[2]:
+                    return False
+            text = source_line(f[2], f[3])
+            return any(name in text for name in ELFUTILS_OWNED)
+        if f[0] == "src" and "/verif/sim/" in f[2]:
+            return False
+    return False
+
+
+def attribute_leak(z, plan, resp):
+    """Re-run with full allocation stacks and drop the records that belong to
+    elfutils.  Returns (remaining records, ignored count, log)."""
+    r2 = z.run_slow_unwind(plan)
+    log = r2.log or resp.log or ""
+    recs = split_leak_records(log)
+    keep = [r for r in recs if not leak_is_elfutils_internal(r)]
+    return keep, len(recs) - len(keep), log
+
+
 def classify(resp, last_op=None):
     """Fatal outcome of a run -> (oracle, klass, detail); None if it finished."""
     fc = resp.fatal_class()
@@ -109,6 +207,7 @@ class Outcome:
         self.baseline_runs = 0
         self.baseline_timeouts = 0
         self.discarded = None   # reason the run was not judged
+        self.elfutils_leaks_ignored = 0
 
 
 def last_op_of(plan, resp):
@@ -136,6 +235,21 @@ def simulate(z, plan, profile=None):
 
     cl = classify(resp, last_op_of(plan, resp))
     viol = None
+    if cl is not None and cl[0] == "leak" and "leak" in enforced:
+        keep, ignored, log = attribute_leak(z, plan, resp)
+        if ignored:
+            out.elfutils_leaks_ignored = ignored
+        if not keep and ignored:
+            cl = None
+            resp.viol = None
+            resp.fin = True
+            resp.exit = 0
+        elif keep:
+            fr = []
+            for f in keep[0]["frames"]:
+                if is_repo_frame(f):
+                    fr.append(re.sub(r"\(.*", "", f[1]))
+            cl = ("leak", "leak:" + ">".join(fr[:4]), cl[2].split("\n")[0] + "\n" + log[:5000])
     if cl is not None:
         orc, klass, det = cl
         v = O.Violation(orc, det, plan, step=len(resp.events))
@@ -231,16 +345,21 @@ def gate(z, plan, profile, want_klass, want_fp):
 # ------------------------------------------------------------------ minimise
 
 def _still(z, cand, profile, klass, budget):
-    if budget[0] <= 0:
+    import time
+    if budget[0] <= 0 or time.time() > budget[1]:
+        budget[0] = 0
         return False
     budget[0] -= 1
     o = simulate(z, cand, profile)
     return o.violation is not None and o.violation.klass_str == klass
 
 
-def minimise(z, plan, profile, klass, max_runs=400):
+def minimise(z, plan, profile, klass, max_runs=400, max_seconds=None):
     """Greedy/ddmin shrinking while the same violation class persists."""
-    budget = [max_runs]
+    import time
+    if max_seconds is None:
+        max_seconds = float(os.environ.get("VERIF_MINIMISE_S", "90"))
+    budget = [max_runs, time.time() + max_seconds]
     best = P.clone(plan)
 
     def attempt(cand):
